@@ -22,7 +22,7 @@ from pybrops.breed.prot.gt.DenseMaskedUnphasedGenotyping import DenseMaskedUnpha
 from ..snapshot import snap, diff
 
 PROP = "C03"
-RUNS = {"quick": 40000, "thorough": 2000000}
+RUNS = {"quick": 80000, "thorough": 2000000}
 WALL = {"quick": 200, "thorough": 2400}
 RULE = ("scenario = one of 25 labelled matrix classes, a label configuration (which optional label arrays exist, unique or duplicated "
         "names, initial sizes 1-5 per axis, initially grouped or not) and a history of <= 12 structural operations (select, delete/remove, "
